@@ -4,6 +4,7 @@ import random
 
 import common
 import gen_common
+import par_common
 
 DEP_FILES = ["EmitterModel.v", "EmitterProofs.v", "FlowOpModel.v", "FlowOpProofs.v", "FlowEventProofs.v"]
 PID = "C18"
@@ -78,4 +79,5 @@ def run(chk):
     chk.cov["correspondence"]["emitter_stack"] = {"kind": "real cff.EmitterStack vs extracted mk_stack/deliver on generated definitions with shared sub-stacks; 18 methods of 4 emitter kinds, payload identity",
                                                   "programs": len(progs), "definitions_per_program": shapes}
     gen_common.apply(chk, PID)
+    par_common.apply(chk, PID)
     chk.assumptions += gen_common.ASSUMPTIONS + ["events reach the emitters of a stack in an unspecified order (documented): receivers are compared as multisets"]
